@@ -231,9 +231,6 @@ def case_pair(case):
     return out
 
 
-VARIANTS_ALL = ("u", "t", "ut")
-
-
 def _pairs(u, depth, variants, dflt, extras):
     for v in variants:
         for sa in u:
@@ -241,26 +238,25 @@ def _pairs(u, depth, variants, dflt, extras):
                 yield (depth, sa, sb, v, dflt, extras)
 
 
-def shard_pair_f1(acc, shard, nshards, params):
-    n, alpha, variants, dflt, deadline = params
-    u = f1(n, alpha)
-    drive(acc, "pair", case_pair, _pairs(u, 1, variants, dflt), shard, nshards,
-          family="pair_F1(%d,%s)[%s,default=%d]" % (n, alpha, "/".join(variants), dflt), deadline=deadline)
+def universe(dimsp, alpha):
+    """F1(n) / T2(m,n) / T3(l,m,n) over a cell alphabet; returns (specs, depth)."""
+    if len(dimsp) == 1:
+        return f1(dimsp[0], alpha), 1
+    if len(dimsp) == 2:
+        return t2(dimsp[0], dimsp[1], alpha), 2
+    return t3(dimsp[0], dimsp[1], dimsp[2], alpha), 3
 
 
-def shard_pair_t2(acc, shard, nshards, params):
-    m, n, alpha, variants, dflt, deadline = params
-    u = t2(m, n, alpha)
-    drive(acc, "pair", case_pair, _pairs(u, 2, variants, dflt), shard, nshards,
-          family="pair_T2(%d,%d,%s)[%s,default=%d]" % (m, n, alpha, "/".join(variants), dflt), deadline=deadline)
+def uname(dimsp, alpha):
+    return "%s(%s;%s)" % (("F1", "T2", "T3")[len(dimsp) - 1], ",".join(map(str, dimsp)), alpha)
 
 
-def shard_pair_t3(acc, shard, nshards, params):
-    l, m, n, alpha, variants, dflt, deadline = params
-    u = t3(l, m, n, alpha)
-    drive(acc, "pair", case_pair, _pairs(u, 3, variants, dflt), shard, nshards,
-          family="pair_T3(%d,%d,%d,%s)[%s,default=%d]" % (l, m, n, alpha, "/".join(variants), dflt),
-          deadline=deadline)
+def shard_pairs(acc, shard, nshards, params):
+    dimsp, alpha, variants, dflt, extras, deadline = params
+    u, depth = universe(dimsp, alpha)
+    drive(acc, "pair", case_pair, _pairs(u, depth, variants, dflt, extras), shard, nshards,
+          family="pairs_%s[%s,default=%d%s]" % (uname(dimsp, alpha), "/".join(variants), dflt,
+                                                ",+ne+reversed+roots" if extras else ""), deadline=deadline)
 
 
 # ---- depth-3 neighbours: pairs differing by one edit ------------------------
@@ -295,7 +291,7 @@ def shard_neigh_t3(acc, shard, nshards, params):
         for v in variants:
             for sa in u:
                 for sb in neighbours(sa, 3, alpha, width):
-                    yield (3, sa, sb, v, 0)
+                    yield (3, sa, sb, v, 0, 0)
     drive(acc, "pair", case_pair, gen(), shard, nshards,
           family="neighbours_T3(%d,%d,%d,%s)[%s]" % (l, m, n, alpha, "/".join(variants)), deadline=deadline)
 
@@ -431,16 +427,11 @@ def case_single(case):
 
 
 def shard_single(acc, shard, nshards, params):
-    kind, dimsp, alpha, dflt = params
-    if kind == 1:
-        u, depth = f1(dimsp[0], alpha), 1
-    elif kind == 2:
-        u, depth = t2(dimsp[0], dimsp[1], alpha), 2
-    else:
-        u, depth = t3(dimsp[0], dimsp[1], dimsp[2], alpha), 3
-    cases = ((depth, s, v, dflt) for v in ("u", "t") for s in u)
+    dimsp, alpha, variants, dflt = params
+    u, depth = universe(dimsp, alpha)
+    cases = ((depth, s, v, dflt) for v in variants for s in u)
     drive(acc, "single", case_single, cases, shard, nshards,
-          family="single_%s(%s,%s)[default=%d]" % ("FTT"[depth - 1] + str(depth), ",".join(map(str, dimsp)), alpha, dflt))
+          family="single_%s[%s,default=%d]" % (uname(dimsp, alpha), "/".join(variants), dflt))
 
 
 # ---------------------------------------------------------------------------
@@ -475,37 +466,54 @@ CASES = {"pair": case_pair, "triple": case_triple, "single": case_single, "paylo
 A12 = "-d12"     # absent / explicit default / 1 / 2
 A1 = "-d1"
 A7 = "-d01"      # with leaf default 7: 0 and 1 are both values
+A70 = "-d0"      # with leaf default 7: the only value is a stored 0
+U, UT, ALLV = ("u",), ("u", "t"), ("u", "t", "ut")
 
 
 def run(ctx):
     import time
     q = ctx.quick
+    # (dims, alphabet, variants, leaf default, extras)
+    singles = [((4,), A12, UT, 0), ((2, 2), A12, UT, 0), ((3,), A7, UT, 7), ((2, 2), A7, UT, 7),
+               ((2, 2, 2), A1, U if q else UT, 0)]
+    pairs = [((3,), A7, ALLV, 7, 1), ((3,), A12, ALLV, 0, 1), ((4,), A12, UT, 0, 1),
+             ((2, 2), A70, UT, 7, 1), ((2, 2), A1, ALLV, 0, 1), ((2, 2), A12, UT, 0, 0),
+             ((2, 2, 1), A1, U if q else ALLV, 0, 0)]
+    capped = [] if q else [((2, 2), A12, ("ut",), 0, 1, 90), ((2, 2, 1), A12, UT, 0, 0, 150),
+                           ((5,), A12, U, 0, 0, 100), ((2, 3), A1, U, 0, 0, 100), ((3, 2), A1, U, 0, 0, 150)]
+    neigh = (2, 2, 2, A1, U if q else UT)
+    trip = (3, A1 if q else A12)
     ctx.bounds = {
-        "pair_F1": "all ordered pairs of F1(4,{1,2}) (256^2) unowned / as 1-rank tensors with shapes [4] vs [5] / "
-                   "unowned vs tensor root; F1(3,{0,1}) with leaf default 7" + ("" if q else "; F1(5,{1,2}) unowned (1024^2)"),
-        "pair_T2": "all ordered pairs of T2(2,2,{1,2}) (289^2 = 83521) in the three ownership variants (tensor shapes "
-                   "[2,2] vs [2,3]); T2(2,2,{0,1}) with leaf default 7" + ("" if q else "; T2(3,2,{1}) (1000^2) and T2(2,3,{1}) (784^2) unowned, time-capped"),
-        "pair_T3": "all ordered pairs of T3(2,2,1,{1}) (289^2) unowned and as tensors; every tree of T3(2,2,2,{1}) "
-                   "(10201) against all of its one-edit neighbours" + ("" if q else "; all ordered pairs of T3(2,2,1,{1,2}) (676^2)"),
-        "triple": "all ordered triples of F1(3,{1%s})" % ("" if q else ",2"),
-        "single": "every tree of F1(4,{1,2}), T2(2,2,{1,2}), T3(2,2,2,{1}) unowned and as a tensor, and F1(3)/T2(2,2) "
-                  "over {0,1} with leaf default 7: isEmpty, Payload.isEmpty, countValues, nonEmpty, deepcopy, x == x",
+        "cell alphabet": "'-' absent, 'd' explicitly stored default, digits literal values; a sub-fiber slot is absent "
+                         "or holds any member of the next level's universe (so empty and default-only sub-fibers occur)",
+        "variants": "u = unowned fibers; t = two tensors with equal rank ids, declared shapes differing in the last rank; "
+                    "ut = unowned fiber against the root of a tensor; extras = also !=, reversed order, owned roots",
+        "pairs": ["all ordered pairs of %s variants=%s default=%d extras=%d" % (uname(d, a), "/".join(v), df, ex)
+                  for d, a, v, df, ex in pairs] +
+                 ["all ordered pairs of %s variants=%s default=%d extras=%d (time cap %ds)" % (uname(d, a), "/".join(v), df, ex, cap)
+                  for d, a, v, df, ex, cap in capped],
+        "neighbours": "every tree of T3(2,2,2;-d1) (10201) against each tree one edit away, variants=%s" % "/".join(neigh[4]),
+        "triples": "all ordered triples of F1(3;%s): reflexive, symmetric, transitive on the library's own verdicts" % trip[1],
+        "single": ["every tree of %s variants=%s default=%d: isEmpty, Payload.isEmpty, countValues, nonEmpty, deepcopy, x == x"
+                   % (uname(d, a), "/".join(v), df) for d, a, v, df in singles],
+        "Payload.isEmpty": "values and defaults from {-1,0,1,2,7,0.0,0.5}, plain and boxed, with and without default=",
     }
-    ctx.shards(shard_payload_empty, None, nshards=1, serial=True)
-    ctx.shards(shard_single, (1, (4,), A12, 0))
-    ctx.shards(shard_single, (2, (2, 2), A12, 0))
-    ctx.shards(shard_single, (1, (3,), A7, 7))
-    ctx.shards(shard_single, (2, (2, 2), A7, 7))
-    ctx.shards(shard_single, (3, (2, 2, 2), A1, 0))
-    ctx.shards(shard_triple, (3, A1 if q else A12))
-    ctx.shards(shard_pair_f1, (3, A7, VARIANTS_ALL, 7, None))
-    ctx.shards(shard_pair_f1, (4, A12, VARIANTS_ALL, 0, None))
-    ctx.shards(shard_pair_t2, (2, 2, A12, VARIANTS_ALL, 0, None))
-    ctx.shards(shard_pair_t2, (2, 2, A7, ("u", "t"), 7, None))
-    ctx.shards(shard_pair_t3, (2, 2, 1, A1, ("u", "t"), 0, None))
-    ctx.shards(shard_neigh_t3, (2, 2, 2, A1, ("u", "t"), None))
-    if not q:
-        ctx.shards(shard_pair_t3, (2, 2, 1, A12, ("u", "t"), 0, time.time() + 150))
-        ctx.shards(shard_pair_f1, (5, A12, ("u",), 0, time.time() + 120))
-        ctx.shards(shard_pair_t2, (2, 3, A1, ("u",), 0, time.time() + 120))
-        ctx.shards(shard_pair_t2, (3, 2, A1, ("u",), 0, time.time() + 150))
+    only = getattr(ctx, "only", None)
+
+    def want(name):
+        return not only or any(name.startswith(p) for p in only)
+    if want("payload"):
+        ctx.shards(shard_payload_empty, None, nshards=1, serial=True)
+    for d, a, v, df in singles:
+        if want("single"):
+            ctx.shards(shard_single, (d, a, v, df))
+    if want("triple"):
+        ctx.shards(shard_triple, trip)
+    for d, a, v, df, ex in pairs:
+        if want("pairs_" + uname(d, a)):
+            ctx.shards(shard_pairs, (d, a, v, df, ex, None))
+    if want("neighbours"):
+        ctx.shards(shard_neigh_t3, neigh + (None,))
+    for d, a, v, df, ex, cap in capped:
+        if want("pairs_" + uname(d, a)):
+            ctx.shards(shard_pairs, (d, a, v, df, ex, time.time() + cap))
